@@ -199,6 +199,23 @@ func (e *expectation) oversized(cfg runCfg) bool {
 	return e.sumDist > lim
 }
 
+// leaves lists the referenced objects that are not (also) a Tree of the
+// ActionResult. The empty blob can be an empty Tree and an empty Directory at
+// the same time.
+func (e *expectation) leaves() []string {
+	isTree := map[string]bool{}
+	for _, k := range e.treeKeys {
+		isTree[k] = true
+	}
+	var out []string
+	for _, k := range e.order {
+		if !isTree[k] {
+			out = append(out, k)
+		}
+	}
+	return out
+}
+
 // missingNow lists the required objects absent from the CAS (state based; only
 // meaningful when the CAS does not change during the call).
 func (e *expectation) missingNow(w *world) []string {
@@ -324,8 +341,17 @@ func (h harness) execute(w *world, cfg runCfg) outcome {
 		c.Violation(site+class, format+"\nCAS calls during the Get:\n%s", append(a, sb.String())...)
 	}
 
+	if len(calls) > 3 {
+		rw.Count("multi_batch_gets", 1)
+	}
 	if ok {
 		rw.Count("results_returned", 1)
+		if cfg.flaky {
+			rw.Count("flaky_returned", 1)
+		}
+		if unrequiredAbsent(w, exp) {
+			rw.Count("returned_unrequired_directory_absent", 1)
+		}
 		// Identity of what was returned.
 		stored := &remoteexecution.ActionResult{}
 		if !exp.arOK {
